@@ -834,7 +834,7 @@ func TestC08(t *testing.T) {
 	}
 
 	t.Run("roundtrip", func(t *testing.T) {
-		ev.Check(t, 70, 2500, func(rt *rapid.T) {
+		ev.Check(t, 70, 1000, func(rt *rapid.T) {
 			p := c08DrawPlan(rt, maxTx)
 			w := c08Build(p)
 			defer w.Close()
@@ -862,7 +862,7 @@ func TestC08(t *testing.T) {
 		if c08Poisoned() {
 			t.Fatalf("not run: an earlier decoder call ran away and is still consuming memory")
 		}
-		ev.Check(t, 70, 2500, func(rt *rapid.T) {
+		ev.Check(t, 70, 1000, func(rt *rapid.T) {
 			p := c08DrawPlan(rt, maxTx)
 			w := c08Build(p)
 			defer w.Close()
@@ -898,7 +898,7 @@ func TestC08(t *testing.T) {
 		if c08Poisoned() {
 			t.Fatalf("not run: an earlier decoder call ran away and is still consuming memory")
 		}
-		ev.Check(t, 70, 2500, func(rt *rapid.T) {
+		ev.Check(t, 70, 1000, func(rt *rapid.T) {
 			p := c08DrawPlan(rt, maxTx)
 			w := c08Build(p)
 			defer w.Close()
@@ -931,7 +931,7 @@ func TestC08(t *testing.T) {
 		if err != nil {
 			ev.Inconclusive("C08: NewBlockDataFactory: %v", err)
 		}
-		ev.Check(t, 1000, 30000, func(rt *rapid.T) {
+		ev.Check(t, 1000, 12000, func(rt *rapid.T) {
 			in := gen.Bytes(rt, "raw", 300)
 			if rapid.Bool().Draw(rt, "v2prefix") && len(in) > 2 {
 				in[0] = byte(0xc0 + rapid.IntRange(1, 0x37).Draw(rt, "l"))
